@@ -46,20 +46,20 @@ SCAL_CORE = [(-1., 0.), (1., 2.)]
 SPACES = {
     "quick": [
         ("full<=1", rm.FULL, 1, SCAL_FULL),
-        ("coreP<=3", ["Sr", "Dc", "M"], 3, SCAL_CORE),
-        ("coreP2<=2", ["Sc", "Srd", "Drd", "Dc1", "Dc2", "Dr2", "G", "N", "I"], 2, SCAL_CORE),
-        ("coreX<=2", ["Dr", "F", "Hy", "Dh", "Gpu", "Gup", "Du", "Su"], 2, SCAL_CORE),
-        ("coreQ<=2", ["Dq0", "Dq1", "Dq0t", "Dqf", "Sq", "Mq0", "C"], 2, SCAL_CORE),
-        ("coreMD<=2", ["Bdd", "Bds", "Bm", "Bma", "Bmb", "Smd", "Ba", "Bb"], 2, SCAL_CORE),
+        ("P3<=3", ["Sr", "Dc", "M"], 3, SCAL_CORE),
+        ("P12<=2", ["Sr", "Dc", "M", "Sc", "Srd", "Drd", "Dc1", "Dc2", "Dr2", "G", "N", "I"], 2, SCAL_CORE),
+        ("X8<=2", ["Dr", "F", "Hy", "Dh", "Gpu", "Gup", "Du", "Su"], 2, SCAL_CORE),
+        ("Q7<=2", ["Dq0", "Dq1", "Dq0t", "Dqf", "Sq", "Mq0", "C"], 2, SCAL_CORE),
+        ("MD8<=2", ["Bdd", "Bds", "Bm", "Bma", "Bmb", "Smd", "Ba", "Bb"], 2, SCAL_CORE),
         ("bd-chain-entry<=1", ["Bch", "Bdd"], 1, SCAL_CORE),
     ],
     "thorough": [
         ("full<=2", rm.FULL, 2, SCAL_FULL),
-        ("coreP<=3", ["Sr", "Sc", "Drd", "Dc", "Dc3", "M", "G"], 3, SCAL_CORE),
-        ("coreX<=3", ["Dr", "F", "Dh", "Gpu", "Gup", "Du"], 3, SCAL_CORE),
-        ("coreQ<=3", ["Dq0", "Dq1", "Dq0t", "Sq", "C"], 3, SCAL_CORE),
-        ("coreMD<=3", ["Bds", "Bm", "Bma", "Bmb", "Smd", "Ba"], 3, SCAL_CORE),
-        ("tinyP<=4", ["Sc", "Dc", "M"], 4, [(-1., 0.)]),
+        ("P5<=3", ["Sr", "Sc", "Dc", "M", "G"], 3, SCAL_CORE),
+        ("X6<=3", ["Dr", "F", "Dh", "Gpu", "Gup", "Du"], 3, SCAL_CORE),
+        ("Q5<=3", ["Dq0", "Dq1", "Dq0t", "Sq", "C"], 3, SCAL_CORE),
+        ("MD4<=3", ["Bds", "Bm", "Bma", "Ba"], 3, SCAL_CORE),
+        ("P2<=4", ["Dc", "M"], 4, SCAL_CORE),
         ("bd-chain-entry<=1", ["Bch", "Bdd"], 1, SCAL_CORE),
     ],
 }
@@ -453,5 +453,5 @@ def run(case):
 
 
 def finish(run):
-    return dict(spaces=getattr(cases, "sizes", {}),
-                simplifier_branches_hit=sorted(k[3:] for k in run.extra if k.startswith("ev|")))
+    branches = {k[3:]: int(run.extra.pop(k)) for k in sorted(run.extra) if k.startswith("ev|")}
+    return dict(spaces=getattr(cases, "sizes", {}), simplifier_branches_hit=branches)
